@@ -318,6 +318,15 @@ class Builtins:
             return SV(v.ty, v.term)  # a copy: value semantics
         return self.cdb.externals.dict_from_pairs(it, v, fr)
 
+    def b_objnew(self, it, args, kwargs, fr):
+        """object.__new__(cls): a fresh object of that class, no field initialised (fields read before being written are
+        unconstrained).  In a classmethod verified for its defining class `cls` is that class."""
+        if len(args) != 1 or not isinstance(args[0], VClass):
+            raise Unsupported("__new__ shape")
+        it.notes.add("cls.__new__(cls): fresh uninitialised instance; in a classmethod the class is the one the method is verified for")
+        v = it.alloc(args[0].ci.qname)
+        return SV(TObj(args[0].ci.qname, exact=False), v.term)
+
     def b_Counter(self, it, args, kwargs, fr):
         """collections.Counter(seq) as an uninterpreted function of the sequence (assumed library function):
         a dict from element to int; nothing else is known about it."""
